@@ -268,6 +268,31 @@ pub mod simd {
         requires super::cpu_has_avx2(), k < 2
         ensures forall|j: int| 0 <= j < 64 ==> #[trigger] final(a)@[j] == (if 32 * k <= j < 32 * k + 32 { v.b@[j - 32 * k] } else { old(a)@[j] })
     { unimplemented!() }
+    // the aligned forms of the four accesses (`_mm_load_si128`, `_mm_store_si128`, `_mm256_load_si256`, `_mm256_store_si256`):
+    // same data movement, plus the hardware's alignment demand on the address (a general-protection fault otherwise).
+    // `ptr_aligned` is uninterpreted: a `[u8; 64]` has alignment 1 and the public `ShardsRefMut::new` accepts any buffer, so a
+    // kernel that uses them fails this precondition (C03: safe for every caller buffer).
+    pub uninterp spec fn ptr_aligned(a: &[u8; 64], n: nat) -> bool;
+    #[verifier::external_body]
+    pub fn load128_aligned(a: &[u8; 64], k: usize) -> (r: __m128i)
+        requires k < 4, ptr_aligned(a, 16)
+        ensures forall|n: int| 0 <= n < 16 ==> #[trigger] r.b@[n] == a@[16 * k + n]
+    { unimplemented!() }
+    #[verifier::external_body]
+    pub fn store128_aligned(a: &mut [u8; 64], k: usize, v: __m128i)
+        requires k < 4, ptr_aligned(&*old(a), 16)
+        ensures forall|j: int| 0 <= j < 64 ==> #[trigger] final(a)@[j] == (if 16 * k <= j < 16 * k + 16 { v.b@[j - 16 * k] } else { old(a)@[j] })
+    { unimplemented!() }
+    #[verifier::external_body]
+    pub fn load256_aligned(a: &[u8; 64], k: usize) -> (r: __m256i)
+        requires super::cpu_has_avx2(), k < 2, ptr_aligned(a, 32)
+        ensures forall|n: int| 0 <= n < 32 ==> #[trigger] r.b@[n] == a@[32 * k + n]
+    { unimplemented!() }
+    #[verifier::external_body]
+    pub fn store256_aligned(a: &mut [u8; 64], k: usize, v: __m256i)
+        requires super::cpu_has_avx2(), k < 2, ptr_aligned(&*old(a), 32)
+        ensures forall|j: int| 0 <= j < 64 ==> #[trigger] final(a)@[j] == (if 32 * k <= j < 32 * k + 32 { v.b@[j - 32 * k] } else { old(a)@[j] })
+    { unimplemented!() }
     // _mm_loadu_si128(std::ptr::from_ref::<u128>(p).cast::<__m128i>()): the 16 bytes of a u128 on a little-endian machine
     #[verifier::external_body]
     pub fn load128_u128(p: &u128) -> (r: __m128i)
